@@ -495,6 +495,11 @@ func c07Retry(c *Ctx) {
 			if fn, isFn := mc.Fn.(*ssa.Function); isFn && consumes(fn) {
 				cons = append(cons, ins)
 			}
+			return
+		}
+		// a helper function or method of the package that makes the attempt
+		if g := call.Call.StaticCallee(); g != nil && g.Blocks != nil && g.Pkg == f.Pkg && consumes(g) {
+			cons = append(cons, ins)
 		}
 	})
 	if len(cons) == 0 {
